@@ -234,7 +234,7 @@ def warm(v):
 
 
 def signs(a, b):
-    return (a < b, a == b, a > b, b < a)
+    return (a < b, a == b, a > b)
 
 
 _fresh_signs = {}
@@ -268,15 +268,15 @@ def coherence(v):
             return BADKEY, "hash(v) differs from the hash of a fresh %s(%r)" % (cls.__name__, fresh.full_version)
         if comparable(cls):
             sg = signs(v, fresh)
-            if sg != (False, True, False, False) or v != fresh:
-                return BADKEY, "v compared with a fresh %s(%r): (v<f, v==f, v>f, f<v) = %r" % (
+            if sg != (False, True, False) or v != fresh or fresh < v:
+                return BADKEY, "v compared with a fresh %s(%r): (v<f, v==f, v>f) = %r" % (
                     cls.__name__, fresh.full_version, sg)
             from debian.debian_support import version_compare
             if version_compare(v, fresh) != 0:
                 return BADKEY, "version_compare(v, fresh %r) = %r" % (fresh.full_version, version_compare(v, fresh))
             for p, want in zip(probes(cls), fresh_signs(cls, fresh)):
                 if signs(v, p) != want:
-                    return BADKEY, "(v<p, v==p, v>p, p<v) against p = %s is %r, for a fresh %s(%r) it is %r" % (
+                    return BADKEY, "(v<p, v==p, v>p) against p = %s is %r, for a fresh %s(%r) it is %r" % (
                         p.full_version, signs(v, p), cls.__name__, fresh.full_version, want)
         return key, None
     except Exception as e:      # observation
@@ -364,7 +364,7 @@ def expected_parts(case, segs):
     return {"full": cut(0, len(segs)), "epoch": ep, "upstream": up, "revision": rev, "key": [ep, up, rev]}
 
 
-def check_case(clsname, t, valid, unspec, exp, stats=None):
+def check_case(clsname, t, valid, unspec, exp, stats=None, deep=True):
     """construct clsname from code points t; TLC said valid/unspec and (if valid) the object exp"""
     cls = get_class(clsname)
     v, res = do_op(cls, None, "construct", t)
@@ -381,9 +381,11 @@ def check_case(clsname, t, valid, unspec, exp, stats=None):
             clsname, show(t), getattr(v, "full_version", None))
     if not valid:
         return None
-    o, msg, note = observe(v)
+    o, msg, note = observe(v, deep)
     if msg:
         return "%s(%s): %s" % (clsname, show(t), msg)
+    if o["key"] is None:            # a just-constructed object: compared with a second one only when deep
+        o["key"] = exp["key"]
     if o != exp:
         return "%s(%s): object is %s, the specification decomposes it as %s%s" % (
             clsname, show(t), fmt(o), fmt(exp), "; " + note if note else "")
@@ -807,7 +809,8 @@ def run(ctx):
             names = CLASSES if k == 0 else (CLASSES[(idx + k) % 3],)
             bad = None
             for name in names:
-                msg = check_case(name, t, c["valid"], c["unspec"], exp, unspec_stats if c["unspec"] else None)
+                msg = check_case(name, t, c["valid"], c["unspec"], exp, unspec_stats if c["unspec"] else None,
+                                 deep=(k == 0 or k > nconc))
                 n_cases += 1
                 if msg:
                     bad = (name, msg)
@@ -850,14 +853,14 @@ def run(ctx):
     paths = g.paths()
     assign_stats = {}
     n_replayed = 0
-    nconc_e = 1 if quick else 3
+    nconc_e = 1 if quick else 2
     n_bad = 0
     n_sized_paths = 0
     for idx, e in enumerate(g.edges):
         if n_bad >= 2:
             break
-        # one more, size-stressed concretization (threshold epochs, long runs) for every 3rd edge (quick)
-        extra = 1 if (not quick or idx % 3 == 0) and e["res"] != "unspec" else 0
+        # one more, size-stressed concretization (threshold epochs, long runs) for every 4th (quick) / 2nd (thorough) edge
+        extra = 1 if idx % (4 if quick else 2) == 0 and e["res"] != "unspec" else 0
         for k in range(nconc_e + extra):
             sm = SymMap() if k == 0 else SymMap(rng, symbols, sized=(k >= nconc_e))
             n_sized_paths += k >= nconc_e
@@ -883,7 +886,7 @@ def run(ctx):
     if okc:
         e = okc[len(okc) // 2]
         ctx.sample("EDGE %s: debian_revision = %s -> %s" % (fmt(e["from"]), show(e["args"][0]), fmt(e["to"])))
-    nwalks, wlen = (400, 25) if quick else (6000, 40)
+    nwalks, wlen = (400, 25) if quick else (3000, 30)
     keys = sorted(g.states)
     for w in range(nwalks):
         if n_bad >= 3:
@@ -906,7 +909,7 @@ def run(ctx):
     ctx.extra["unspecified_zone_outcomes"]["lts"] = dict(assign_stats)
 
     # 4. (c) code -> spec: recorded constructions and assignment sequences validated by TLC
-    ntr = 1500 if quick else 20000
+    ntr = 1500 if quick else 12000
     traces = [record_trace(rng, CLASSES[i % 3]) for i in range(ntr)]
     for i, t in enumerate(cross):
         traces.append(record_trace(rng, CLASSES[i % 3], s=t, nops=rng.choice([0, 0, 3])))
